@@ -25,7 +25,7 @@ RULE = ("seeded single configurations: d∈{2,3} × N≤14 (every fifth g(r) cas
         "dyadic/decimal set × configuration {gas, lattice+offset, clusters} on a 3-decimal grid; S(q): orthogonal box with "
         "pairwise different edges × {explicit integer wave-vector list incl. ±/duplicates, default set of choosewavevector}; "
         "values on a 2-decimal grid (dyadic for 32-bit dtypes).  A g(r) case is judged when every rint argument and every "
-        "distance is ≥1e-6 from its flip point; an S(q) case when distinct |q| are ≥1.2e-4 apart (exact ℚ check).  "
+        "distance is ≥1e-6 from its flip point; an S(q) case when distinct |q| are ≥4e-8 apart (exact ℚ check; conditional_sq groups at 1e-8; every fifth box has nearly equal edges).  "
         "non-trivial = the weighted histogram / structure factor has a non-zero entry and ≥2 particles enter; distinct = "
         "distinct literal inputs.  Scale stream (labelled test): conditional_gr on N ≈ 2 000 particles with coarse bins, bool "
         "and real conditions, against the numpy brute force of the statement (per-particle per-bin counts > 127, ~10⁶ pairs)")
@@ -47,7 +47,7 @@ TRUSTED_BASE = [
     "by the self-made mutants recorded in design/C13.md",
 ]
 MU = Fraction(1, 10 ** 6)
-MKEY_MIN = Fraction(4, 10 ** 10)
+MKEY_MIN = Fraction(4, 10 ** 17)      # ((q2-q1)/2π)² ≥ (6.3e-9)² ⇒ q2−q1 ≥ 4e-8: four times the 1e-8 resolution at which conditional_sq groups
 DELTAS = ["0.25", "0.5", "0.125", "1", "0.3", "0.4", "0.7", "0.37", "0.2", "0.55"]
 KIND_DTYPES = {
     "bool": ["bool"],
@@ -179,6 +179,10 @@ def gen_sq_case(rng, big=False, kind=None):
     N = rng.randint(2, 24 if big else 12)
     while True:
         L = [dec(rng, 3, 9, rng.choice([1, 2, 3])) for _ in range(d)]
+        if rng.random() < 0.2:
+            # nearly equal edges: |q| of (1,0,…) and (0,1,…) differ by ~1e-5 — distinct shells, not to be averaged together
+            for j in range(1, d):
+                L[j] = format(float(Fraction(L[0]) + Fraction(rng.choice([4, 7, 10, -5, 12]), 10 ** 4) * j), ".4f")
         if len({Fraction(x) for x in L}) == d:
             break
     pos = [[dec(rng, -1.5, float(L[j]) + 1.5, 3) for j in range(d)] for _ in range(N)]
@@ -621,8 +625,13 @@ def failing_gr(c, parsed=None):
         return ("raise", f"real code raised {type(e).__name__}: {e}")
 
 
-def sq_consequences(c, vals, per_real):
+MKEY_CLASS = Fraction(4, 10 ** 13)    # the `sq` class groups at 1e-6: its rows are compared only when distinct |q| are ≥ 4e-6 apart
+
+
+def sq_consequences(c, vals, per_real, mkey=None):
     cond = c["cond"]
+    if mkey is not None and mkey < MKEY_CLASS and (cond["kind"] == "bool" or cond.get("special") == "ones"):
+        return None
     if cond["kind"] == "bool":
         full = real_sq_class(c)                       # averaged per |q|, rounded to 6 decimals
         a, K = cond["species"], cond["K"]
@@ -699,7 +708,7 @@ def failing_sq(c, parsed=None):
                 return ("group", f"averaged row (q={q!r}, Sq={x!r}) but the definition gives (q={g[0]!r}, Sq={g[2]!r})")
     try:
         with np.errstate(all="ignore"):
-            return sq_consequences(c, vals, got)
+            return sq_consequences(c, vals, got, parsed["mKey"] if parsed is not None and not parsed["raise"] else None)
     except Exception as e:
         return ("raise", f"real code raised {type(e).__name__}: {e}")
 
